@@ -439,7 +439,7 @@ func (self *Fork) updateId(id ForkId) {
 	}
 	// If we updated the path, we should load stage defs and create chunks.
 	if self.path != oldPath {
-		if err := self.split_metadata.ReadInto(StageDefsFile, &self.stageDefs); err == nil {
+		if err := self.readStageDefs(); err == nil {
 			width := util.WidthForInt(len(self.stageDefs.ChunkDefs))
 			self.chunks = make([]*Chunk, 0, len(self.stageDefs.ChunkDefs))
 			for i, chunkDef := range self.stageDefs.ChunkDefs {
@@ -448,6 +448,19 @@ func (self *Fork) updateId(id ForkId) {
 			}
 		}
 	}
+}
+
+// Loads the stage defs which were written by the split.
+func (self *Fork) readStageDefs() error {
+	err := self.split_metadata.ReadInto(StageDefsFile, &self.stageDefs)
+	if self.stageDefs == nil {
+		// A json null is not an error for the decoder.  It clears the pointer.
+		self.stageDefs = new(StageDefs)
+		if err == nil {
+			err = errors.New("the stage defs were null")
+		}
+	}
+	return err
 }
 
 func (self *Fork) Split() bool {
@@ -1075,7 +1088,7 @@ func (self *Fork) doChunks(state MetadataState, getBindings func() MarshalerMap)
 		self.split_metadata.poll()
 	}
 	if self.split_metadata.exists(StageDefsFile) {
-		if err := self.split_metadata.ReadInto(StageDefsFile, &self.stageDefs); err != nil {
+		if err := self.readStageDefs(); err != nil {
 			errstring := err.Error()
 			self.split_metadata.WriteErrorString(fmt.Sprintf(
 				`The split method did not return a dictionary {"chunks": [{}], "join": {}}.
@@ -1100,6 +1113,14 @@ Chunk count: %d`,
 					chunk.verifyDef()
 				}
 				self.metadatasCache = nil
+			} else {
+				// The chunks were loaded when reattaching to the pipestance.
+				// Verify the ones which are about to be run (again).
+				for _, chunk := range self.chunks {
+					if !chunk.hasBeenRun && chunk.getState() == Ready {
+						chunk.verifyDef()
+					}
+				}
 			}
 			if len(self.chunks) > 0 {
 				bindings := getBindings()
